@@ -235,6 +235,55 @@ def undecodable_frame(h1: bytes, h2: bytes, b2: bytes, cut: int, ssel: int) -> b
                and len(p._receive_buffer) == 0)
 
 
+_BACKLOG = [b"", bytes((7 * i) % 251 for i in range(5000))]
+
+
+def bytequeue_model(tail: bytes, big: int, ops: List[int], ks: List[int]) -> bool:
+    """
+    pre: len(tail) <= 2 and 0 <= big <= 1
+    pre: len(ops) <= 2 and len(ks) == 2
+    pre: all(0 <= o <= 4 for o in ops) and all(0 <= k <= 5 for k in ks)
+    post: _
+    """
+    # the receive buffer against its specification (a plain byte string) over every sequence of <= 2 operations, from a backlog of
+    # 0 / 5000 concrete bytes plus a symbolic tail: sizes are small (0..3 bytes) or large (4097, 5001 bytes), so any size-
+    # or backlog-dependent fast path of the queue is crossed. len(), peek, pop, pop_byte, append and clear must agree after every step.
+    ref = pick(_BACKLOG, big) + tail
+    q = ByteQueue()
+    q.append(ref)
+    if len(q) != len(ref):
+        return False
+    for i, op in enumerate(ops):
+        k = pick([0, 1, 2, 3, 4097, 5001], ks[i])
+        if op == 0:
+            got = bytes(q.pop(k))
+            want, ref = ref[:k], ref[k:]
+            if got != want:
+                return False
+        elif op == 1:
+            if bytes(q.peek(k)) != ref[:k]:
+                return False
+        elif op == 2:
+            if len(ref) == 0:
+                continue
+            if q.pop_byte() != ref[0]:
+                return False
+            ref = ref[1:]
+        elif op == 3:
+            extra = bytes((3 * j + k) % 256 for j in range(k))
+            q.append(extra)
+            ref = ref + extra
+        else:
+            if len(ref) > 0 and q.peek_byte(0) != ref[0]:
+                return False
+            if k == 5 and i == 1:
+                q.clear()
+                ref = b""
+        if len(q) != len(ref):
+            return False
+    return fin(bytes(q.peek(len(ref) + 1)) == ref)
+
+
 _J = 17
 OBLIGATIONS = [
     dict(name="header_encode", fn="header_encode", timeout=120, functions=["HsmsHeader.__init__/encode"],
@@ -274,3 +323,11 @@ OBLIGATIONS.append(
                 "followed by a well-formed frame (any header, body <= 2), in one segment or cut at any of the first 14 offsets: the "
                 "well-formed frame is delivered exactly once and the buffer is empty afterwards",
          outside="more than one undecodable frame in a row; length fields larger than the data that ever arrives (no T8 in the library)"))
+OBLIGATIONS.append(
+    dict(name="bytequeue_model", fn="bytequeue_model", timeout={"quick": 600, "thorough": 1800}, parts={"quick": ["big == %d and len(ops) <= 1" % i for i in range(2)],
+                "thorough": ["big == %d and len(ops) <= 1" % i for i in range(2)]
+                + ["big == %d and len(ops) == 2 and ops[0] == %d" % (i, o) for i in range(2) for o in range(5)]},
+         functions=["ByteQueue.append/pop/pop_byte/peek/peek_byte/clear/__len__"],
+         bounds="backlog 0 / 5000 concrete bytes + symbolic tail <= 2, every sequence of <= 1 (thorough 2) operations with sizes 0..3, 4097, "
+                "5001: results and length equal the byte-string specification after every step",
+         outside="longer operation sequences; wait_for (blocking) - exercised by the frame obligations"))
